@@ -17,7 +17,8 @@ EXPLANATION = (
     "(the name is freed before LLVMAddFunction); R8 call instructions carry the calling convention of the callee; R7 (shared with C01) struct insert/extract/GEP indices derive from the member offset the typer "
     "resolved by name, never from source position (constant aggregates of the wrong shape pass the in-process verifier "
     "and are only rejected by llvm-as). Validity of every emitted instruction is decided by LLVM at run time: not decided."
-    " ROUNDS 5-6: R9 a builtin that expands directly to a literal gives it the type the typer announced (line!: usize; file!: announced as slice, expanded to an array -- known finding).")
+    " ROUNDS 5-6: R9 a builtin that expands directly to a literal gives it the type the typer announced (line!: usize; file!: announced as slice, expanded to an array -- known finding)."
+    " ROUND 7: R2 linkage and calling convention are tables over the sixteen flag sets, folded from the arguments of LLVMSetLinkage / LLVMSetFunctionCallConv (rules/flagfn.py), whatever the form of the code that chooses them.")
 
 GEN = "alpha::generator::Generator"
 
